@@ -5,15 +5,20 @@ open Launcher
 /-
 `pmodel launcher`: a stateful model launcher, one input line -> one observation line.
 
-  case <none|mem|pickle> <default|custom|split>
+  case <none|mem|pickle> <default|custom|split|custom+ctx|custom+ctxdefault|ctxloader|ctx>
         new launcher, empty persister.  `custom`: `ProcessLauncher(loader=L)` and `InMemoryPersister(loader=L)`;
-        `split`: `ProcessLauncher()` (no loader) with `InMemoryPersister(loader=L)`.            -> `case`
+        `split`: `ProcessLauncher()` (no loader) with `InMemoryPersister(loader=L)`;
+        `custom+ctx`: `custom` plus `load_context=LoadSaveContext(loop=…)`;
+        `custom+ctxdefault`: `custom` plus `load_context=LoadSaveContext(loader=<the default loader>)`;
+        `ctxloader`: `ProcessLauncher(load_context=LoadSaveContext(loader=L))` with `InMemoryPersister(loader=L)`;
+        `ctx`: `ProcessLauncher(load_context=LoadSaveContext(loop=…))`, no loader anywhere.      -> `case`
   ckpt <Cls> <n|none> (<j> <tag|none>)+
         (harness-made checkpoints) construct ONE `Cls`; for each pair step it until `j` `Process.step()` iterations have
         been performed in total, then save it under `tag`
                                                                                                    -> `ckpt #k keys=…`
-  t <type|~> <A|N|X> <ident|~> <n|none|~> <persist 0|1|~> <nowait 0|1|~> <pid #k|?|~> <tag name|none|~>
+  t <type|~> <A|N|X> <ident|~> <n|none|~> <persist 0|1|~> <nowait 0|1|~> <pid #k|?|~> <tag name|none|~> <act ~|kill|resume>
         a task body; `~` = key absent; A/N/X = the `args` entry is a dict / absent / not a dict.
+        `act`: what the environment does to the process of this task once it WAITS (class `Hold` waits until then).
         identifiers: `d.<Cls>` (the default loader's identifier of the class), `a.<Cls>` (known to the custom loader only),
         anything else is unknown to both                                                          -> observation line
 
@@ -26,10 +31,18 @@ Concrete runtime (mirrors harness/launcher_procs.py): per class the user step ru
 def iterations (cls : ClassId) : List (Option String) :=
   if cls = "Out" ∨ cls = "Alt" ∨ cls = "Raise" then [none, some "run"]
   else if cls = "Steps" then [none, some "run", some "s2", some "s3"]
-  else if cls = "Wait" then [none, some "run", none, some "s2"]
+  else if cls = "Wait" ∨ cls = "Hold" then [none, some "run", none, some "s2"]
   else []
 
-def classes : List ClassId := ["Out", "Alt", "Raise", "Steps", "Wait", "Bad"]
+def classes : List ClassId := ["Out", "Alt", "Raise", "Steps", "Wait", "Hold", "Bad"]
+
+/-- what the environment does to a process that waits for it -/
+inductive Act where
+  | none | kill | resume
+  deriving DecidableEq
+
+/-- a `Hold` process that has not got past its wait (iteration 2) stays there until the environment acts -/
+def holds (p : Proc) : Bool := p.cls = "Hold" && p.pos ≤ 2
 
 def argN (init : CtorArgs) : Int :=
   match init.2 with
@@ -40,9 +53,15 @@ def argN (init : CtorArgs) : Int :=
     | _ => 0
   | _ => 0
 
-def runtime : Runtime where
+def runtime (act : Act) : Runtime where
   construct cls _ := if cls = "Bad" then .error "RuntimeError" else .ok ()
   complete p :=
+    if holds p then
+      match act with
+      | .kill => .killed
+      | .resume => .outputs [("final", argN p.init), ("partial", argN p.init)]
+      | .none => .raised "NeverTerminates"   -- the harness never leaves a waiting process alone
+    else if p.cls = "Hold" then .outputs [("final", argN p.init), ("partial", argN p.init)] else
     -- the outputs are emitted by `run` (iteration 1): by the class that ran it, before or after the checkpoint
     let emitter := if p.pos ≥ 2 then p.origin else p.cls
     if emitter = "Raise" then .raised "ValueError"
@@ -57,6 +76,7 @@ def loaders : Loaders where
     let dflt := (stripPrefix "d." ident).filter (classes.contains ·)
     match k with
     | .default => dflt
+    | .fresh => dflt      -- a default-constructed instance of the custom loader's class knows no aliases
     | .custom =>
       match stripPrefix "a." ident with
       | some c => if classes.contains c then some c else none
@@ -64,6 +84,7 @@ def loaders : Loaders where
   identify k cls :=
     match k with
     | .default => "d." ++ cls
+    | .fresh => "d." ++ cls
     | .custom => if cls = "Out" then "a.Out" else "d." ++ cls
 
 def showTag : Tag → String
@@ -77,13 +98,16 @@ def showKeys (s : Store) : String :=
   let sorted := ks.toArray.qsort (fun a b => a.1 < b.1 || (a.1 == b.1 && a.2 < b.2)) |>.toList
   showList (sorted.map fun k => s!"#{k.1}/{k.2}")
 
-def showEvent : Event → List String
+def showEvent (act : Act) : Event → List String
   | .constructed p => [s!"#{p.pid}:create:{p.cls}"]
   | .recreated p => [s!"#{p.pid}:load:{p.cls}"]
-  | .ran p => ((iterations p.cls).drop p.pos).filterMap (fun o => o.map fun n => s!"#{p.pid}:{n}")
+  | .ran p =>
+    -- a killed `Hold` process runs what comes before its wait only
+    let its := if holds p && act = .kill then (iterations p.cls).take 2 else iterations p.cls
+    (its.drop p.pos).filterMap (fun o => o.map fun n => s!"#{p.pid}:{n}")
   | _ => []
 
-def showEvents (l : List Event) : String := showList (l.flatMap showEvent)
+def showEvents (act : Act) (l : List Event) : String := showList (l.flatMap (showEvent act))
 
 def showErr (cfg : Config) : Err → String
   | .missingTaskKey => "KeyError"
@@ -95,6 +119,7 @@ def showErr (cfg : Config) : Err → String
     | _ => "KeyError"
   | .ctor e => e
   | .proc e => e
+  | .killed => "KilledError"
 
 def showReply (cfg : Config) : Reply → String
   | .pid p => s!"pid:#{p}"
@@ -102,8 +127,11 @@ def showReply (cfg : Config) : Reply → String
   | .error e => "err:" ++ showErr cfg e
   | .rejected => "rejected"
 
-def showStep (cfg : Config) (st : Step) : String :=
-  s!"{showReply cfg st.reply} keys={showKeys st.st.pers} now={showEvents st.now} later={showEvents st.later}"
+def showStep (cfg : Config) (act : Act) (st : Step) : String :=
+  s!"{showReply cfg st.reply} keys={showKeys st.st.pers} now={showEvents act st.now} later={showEvents act st.later}"
+
+def pAct (s : String) : Option Act :=
+  if s = "~" then some .none else if s = "kill" then some .kill else if s = "resume" then some .resume else none
 
 def pBool (s : String) : Option (Option Val) :=
   if s = "~" then some none else if s = "0" then some (some (.bool false)) else if s = "1" then some (some (.bool true)) else none
@@ -143,11 +171,17 @@ def pBody : List String → Option Dict
 
 def pConfig : List String → Option Config
   | [p, l] => do
-    let lk ← if l = "default" then some (none, none) else if l = "custom" then some (some LoaderKind.custom, some LoaderKind.custom)
-             else if l = "split" then some (none, some LoaderKind.custom) else none
-    let pers ← if p = "none" then some none else if p = "mem" then some (some (PersKind.mem lk.2))
+    -- (launcher loader, persister loader, loader in the caller's load context)
+    let lk : Option LoaderKind × Option LoaderKind × Option LoaderKind ←
+      if l = "default" ∨ l = "ctx" then some (none, none, none)
+      else if l = "custom" ∨ l = "custom+ctx" then some (some .custom, some .custom, none)
+      else if l = "custom+ctxdefault" then some (some .custom, some .custom, some .default)
+      else if l = "split" then some (none, some .custom, none)
+      else if l = "ctxloader" then some (none, some .custom, some .custom)
+      else none
+    let pers ← if p = "none" then some none else if p = "mem" then some (some (PersKind.mem lk.2.1))
                else if p = "pickle" then some (some PersKind.pickle) else none
-    some { persister := pers, loader := lk.1 }
+    some { persister := pers, loader := lk.1, ctxLoader := lk.2.2 }
   | _ => none
 
 /-- `(j tag)+` -/
@@ -168,7 +202,7 @@ def saveAll (cfg : Config) (pid : Pid) (cls : ClassId) (init : CtorArgs) : List 
     saveAll cfg pid cls init r pos (s.put (pid, tg) (bundle loaders cfg.saveLoader { pid := pid, cls := cls, origin := cls, init := init, pos := pos }))
 
 structure Sess where
-  cfg : Config := { persister := none, loader := none }
+  cfg : Config := { persister := none, loader := none, ctxLoader := none }
   st : State := { pers := [], next := 0 }
 
 def handle (ss : Sess) (line : String) : Sess × String :=
@@ -187,11 +221,14 @@ def handle (ss : Sess) (line : String) : Sess × String :=
       ({ ss with st := { pers := pers, next := pid + 1 } }, s!"ckpt #{pid} keys={showKeys pers}")
     | _, _ => (ss, "bad")
   | "t" :: rest =>
-    match pBody rest with
-    | some body =>
-      let r := call ss.cfg loaders runtime ss.st body
-      ({ ss with st := r.st }, showStep ss.cfg r)
-    | none => (ss, "bad")
+    match pBody (rest.take 8), (rest.drop 8 : List String) with
+    | some body, [a] =>
+      match pAct a with
+      | some act =>
+        let r := call ss.cfg loaders (runtime act) ss.st body
+        ({ ss with st := r.st }, showStep ss.cfg act r)
+      | none => (ss, "bad")
+    | _, _ => (ss, "bad")
   | _ => (ss, "bad")
 
 partial def loop (h : IO.FS.Stream) (ss : Sess) : IO Unit := do
